@@ -3,7 +3,7 @@
 set -e
 cd "$(dirname "$(readlink -f "$0")")"
 mkdir -p build replays evidence
-export PYTHONPATH=/repo/src:$PWD/harness PYTHONHASHSEED=0 PYTHONDONTWRITEBYTECODE=1
+export PYTHONPATH=${VERIF_REPO_ROOT:-/repo}/src:$PWD/harness PYTHONHASHSEED=0 PYTHONDONTWRITEBYTECODE=1
 /venv/bin/python harness/tables.py
 /venv/bin/python harness/framework.py      # writes coq/_CoqProject from the files present + coq_makefile
 timeout 3000 make -C coq -j16 > build/setup.log 2>&1 || { tail -40 build/setup.log; exit 1; }
